@@ -1918,6 +1918,33 @@ const Ref& reference(const std::string& schema, long outv, long argv_v = 0)
         SpellingZero() : saved(g_input_spelling) { g_input_spelling = 0; }
         ~SpellingZero() { g_input_spelling = saved; }
     } spelling_zero;
+    // ... and in an environment without conditions or pending crashes: a reference is computed the first time a
+    // plan (or the generator) asks for it, possibly in the middle of a history whose `cond` op is in force, or
+    // after a plan that ended with one. It used to inherit that condition, fail, and stay cached as "no reference"
+    // for the rest of the worker's life: every later plan on that (schema, directory) pair was skipped without a
+    // verdict (found by the determinism selftest once it covered histories: 308 of 2 000 plans differed between 16 and
+    // 3 workers).
+    struct CleanEnv
+    {
+        int cond_errno;
+        std::string cond_prefix;
+        long kill_next;
+        bool dirseek_max;
+        CleanEnv() : cond_errno(g.cond_errno), cond_prefix(g.cond_prefix), kill_next(g_kill_next), dirseek_max(g.dirseek_max)
+        {
+            g.cond_errno = 0;
+            g.cond_prefix.clear();
+            g_kill_next = -1;
+            g.dirseek_max = true;
+        }
+        ~CleanEnv()
+        {
+            g.cond_errno = cond_errno;
+            g.cond_prefix = cond_prefix;
+            g_kill_next = kill_next;
+            g.dirseek_max = dirseek_max;
+        }
+    } clean_env;
     for(int round = 0; round < 2; round++)
     {
         fs_reset();
@@ -3010,6 +3037,7 @@ Result exec_plan(const Plan& plan)
                     {
                         res.signature = "HARNESS:no-reference";
                         res.detail = ref->why;
+                        sim::stats().count("harness.no_reference");
                     }
                     break;
                 }
